@@ -116,6 +116,16 @@ type frame struct {
 	cur              ssa.Instruction
 }
 
+// getLazy is get for instructions that merely move a value (store, phi, return, call arguments,
+// conversion to interface, closure bindings): a lazy cell of an arbitrary decoded value
+// (arbitrary.go) is passed on without being materialised.
+func (fr *frame) getLazy(key ssa.Value) value {
+	if r, ok := fr.env[key]; ok {
+		return r
+	}
+	return fr.get(key)
+}
+
 func (fr *frame) get(key ssa.Value) value {
 	switch key := key.(type) {
 	case nil:
@@ -135,6 +145,10 @@ func (fr *frame) get(key ssa.Value) value {
 		}
 	}
 	if r, ok := fr.env[key]; ok {
+		if lc, lazy := r.(*lazycell); lazy {
+			r = lc.force()
+			fr.env[key] = r
+		}
 		return r
 	}
 	panic(fmt.Sprintf("get: no value for %T: %v", key, key.Name()))
@@ -223,7 +237,7 @@ func visitInstr(fr *frame, instr ssa.Instruction) continuation {
 		fr.env[instr] = sliceToArrayPointer(instr.Type(), instr.X.Type(), fr.get(instr.X))
 
 	case *ssa.MakeInterface:
-		fr.env[instr] = iface{t: instr.X.Type(), v: fr.get(instr.X)}
+		fr.env[instr] = iface{t: instr.X.Type(), v: fr.getLazy(instr.X)}
 
 	case *ssa.Extract:
 		fr.env[instr] = fr.get(instr.Tuple).(tuple)[instr.Index]
@@ -235,11 +249,11 @@ func visitInstr(fr *frame, instr ssa.Instruction) continuation {
 		switch len(instr.Results) {
 		case 0:
 		case 1:
-			fr.result = fr.get(instr.Results[0])
+			fr.result = fr.getLazy(instr.Results[0])
 		default:
 			var res []value
 			for _, r := range instr.Results {
-				res = append(res, fr.get(r))
+				res = append(res, fr.getLazy(r))
 			}
 			fr.result = tuple(res)
 		}
@@ -261,7 +275,7 @@ func visitInstr(fr *frame, instr ssa.Instruction) continuation {
 		if sp, ok := addr.(symElemPtr); ok {
 			addr = sp.concrete()
 		}
-		store(mustDeref(instr.Addr.Type()), addr.(*value), fr.get(instr.Val))
+		store(mustDeref(instr.Addr.Type()), addr.(*value), fr.getLazy(instr.Val))
 
 	case *ssa.If:
 		succ := 1
@@ -409,7 +423,7 @@ func visitInstr(fr *frame, instr ssa.Instruction) continuation {
 	case *ssa.MakeClosure:
 		var bindings []value
 		for _, binding := range instr.Bindings {
-			bindings = append(bindings, fr.get(binding))
+			bindings = append(bindings, fr.getLazy(binding))
 		}
 		fr.env[instr] = &closure{instr.Fn.(*ssa.Function), bindings}
 
@@ -453,7 +467,7 @@ func prepareCall(fr *frame, call *ssa.CallCommon) (fn value, args []value) {
 		args = append(args, recv.v)
 	}
 	for _, arg := range call.Args {
-		args = append(args, fr.get(arg))
+		args = append(args, fr.getLazy(arg))
 	}
 	return
 }
@@ -471,6 +485,9 @@ func call(i *interpreter, caller *frame, callpos token.Pos, fn value, args []val
 	case *closure:
 		return callSSA(i, caller, callpos, fn.Fn, args, fn.Env)
 	case *ssa.Builtin:
+		for k := range args {
+			args[k] = unlazy(args[k])
+		}
 		return callBuiltin(caller, callpos, fn, args)
 	}
 	panic(fmt.Sprintf("cannot call %T", fn))
@@ -511,6 +528,9 @@ func callSSA(i *interpreter, caller *frame, callpos token.Pos, fn *ssa.Function,
 	}
 	if fn.Parent() == nil {
 		if fn.Pkg != nil && fn.Pkg.Pkg.Path() == VerifrtPath {
+			for k := range args {
+				args[k] = unlazy(args[k])
+			}
 			if r, ok := intrinsic(fr, fn, args); ok {
 				return r
 			}
@@ -526,6 +546,9 @@ func callSSA(i *interpreter, caller *frame, callpos token.Pos, fn *ssa.Function,
 		if ext := externals[name]; ext != nil {
 			if i.mode&EnableTracing != 0 {
 				fmt.Fprintln(os.Stderr, "\t(external)")
+			}
+			for k := range args {
+				args[k] = unlazy(args[k])
 			}
 			return ext(fr, args)
 		}
@@ -687,7 +710,7 @@ func executePhis(fr *frame) []ssa.Instruction {
 			if fr.i.mode&EnableTracing != 0 {
 				fmt.Fprintln(os.Stderr, "\t", phi.Name(), "=", phi)
 			}
-			fr.phitemps = append(fr.phitemps, fr.get(phi.Edges[predIndex]))
+			fr.phitemps = append(fr.phitemps, fr.getLazy(phi.Edges[predIndex]))
 		}
 		for i, phi := range phis {
 			fr.env[phi.(*ssa.Phi)] = fr.phitemps[i]
@@ -779,6 +802,23 @@ func (w *Worker) Init() (err error) {
 		if m, ok := (*w.i.globals[g]).(*omap); ok && m != nil {
 			for _, s := range m.liveSlots() {
 				w.i.replacements[m.keys[s].(string)] = m.vals[s].(iface).v
+			}
+		}
+	}
+	// verifReplacementsIf: replacements that apply only to runs with a given parameter value;
+	// keys have the form "param=value|function"
+	if g, ok := w.pkg.Members["verifReplacementsIf"].(*ssa.Global); ok {
+		if m, ok := (*w.i.globals[g]).(*omap); ok && m != nil {
+			for _, s := range m.liveSlots() {
+				key := m.keys[s].(string)
+				cond, fn, ok := strings.Cut(key, "|")
+				pn, pv, ok2 := strings.Cut(cond, "=")
+				if !ok || !ok2 {
+					return fmt.Errorf("verifReplacementsIf: bad key %q", key)
+				}
+				if ex.params[pn] == pv {
+					w.i.replacements[fn] = m.vals[s].(iface).v
+				}
 			}
 		}
 	}
